@@ -386,7 +386,9 @@ def run(ctx):
     ctx.check(any(a is w2.I.lib.subscript(w2.I, fe, sp.Integer(2)) for a in atoms2) and any(a is w2.element("O") for a in atoms2), "R7",
               "a formula parsed with table=T holds T's own atom objects", "atoms are not the table's objects", site)
     g = ctx.src.func("formulas.formula_grammar")
-    glob = [n for n in ast.walk(g.node) if isinstance(n, ast.Name) and n.id in ("PUBLIC_TABLE", "default_table", "elements")]
+    # (a structural cross-check of the behavioural rule above: the grammar builder does not name the public table itself;
+    # default_table(<argument>) is a function of the argument and is not counted)
+    glob = [n for n in ast.walk(g.node) if isinstance(n, ast.Name) and n.id in ("PUBLIC_TABLE", "elements")]
     ctx.check(not glob, "R7", "formula_grammar resolves symbols only through its table parameter", f"{[ast.unparse(x) for x in glob]}", site)
     from ptstat import symval
     symval.OPTIONS["unit_groups"] = True      # only compositions are compared in R8, never nesting
